@@ -87,7 +87,7 @@ PROPS = {
         trusted=["Model.SM hand-written from diam/sm/sm.go, cer.go, dwr.go, smparser/*.go, smpeer/metadata.go; dispatch through the C09 mux model"],
     ),
     "C11": dict(
-        domains=[("smserver", "cer", 2500, 40000), ("smserver", "hist", 800, 10000), ("smserver", "multi", 400, 5000), ("smserver", "many", 1, 1)],
+        domains=[("smserver", "cer", 2500, 40000), ("smserver", "hist", 800, 10000), ("smserver", "multi", 400, 5000), ("smserver", "many", 1, 1), ("smserver", "tlscer", 12, 60)],
         relevant=["C11:"],
         theorems=["DV.Props.C11."+t for t in ["C11_accept_iff","C11_accept_meta","C11_reject_code","C11_cea_fields","C11_cea_identity","C11_cea_local_address","C11_gen"]],
         gen_obligations=["Gen.rcSuccess","Gen.rcNoCommonApplication","Gen.rcNoCommonSecurity","Gen.rcUnableToComply","Gen.relayAppId","Gen.cmdCapabilitiesExchange"],
@@ -116,7 +116,7 @@ PROPS = {
         trusted=CONN_TRUST,
     ),
     "C14": dict(
-        domains=[("conn", "closenotify", 600, 8000), ("conn", "cnall4", 1, 1), ("conn", "serve", 200, 2000), ("sctp", "serve", 300, 4000), ("conn", "tlscn", 8, 40), ("conn", "stall", 1, 1), ("conn", "wfail", 1, 1)],
+        domains=[("conn", "closenotify", 600, 8000), ("conn", "cnall4", 1, 1), ("conn", "serve", 200, 2000), ("sctp", "serve", 300, 4000), ("conn", "tlscn", 8, 40), ("conn", "stall", 1, 1), ("conn", "wfail", 1, 1), ("conn", "fullrep", 1, 1)],
         thorough_extra=[("conn", "cnall6", 1, 1)],
         relevant=["C14:"],
         theorems=["DV.Props.C14."+t for t in ["C14_once","C14_only_when_gone","C14_quiet","C14_late_request","C14_transparent","C14_nothing_stuck","C14_multistream","C14_close_never_waits","C14_stuck_writer_released","C14_close_behind_write_lock_counterexample","C14_close_gen","C14_gen"]],
@@ -124,7 +124,7 @@ PROPS = {
         trusted=CONN_TRUST,
     ),
     "C15": dict(
-        domains=[("conn", "faults", 500, 6000), ("conn", "faults2", 300, 4000), ("conn", "multi", 300, 4000), ("conn", "accept", 60, 600), ("conn", "lw", 300, 4000), ("conn", "xtalk", 40, 400), ("conn", "stall", 1, 1), ("conn", "burst", 30, 300)],
+        domains=[("conn", "faults", 500, 6000), ("conn", "faults2", 300, 4000), ("conn", "multi", 300, 4000), ("conn", "accept", 60, 600), ("conn", "lw", 300, 4000), ("conn", "xtalk", 40, 400), ("conn", "stall", 1, 1), ("conn", "burst", 30, 300), ("conn", "fullrep", 1, 1)],
         thorough_extra=[("conn", "cnall5", 1, 1)],
         relevant=["C15:"],
         theorems=["DV.Props.C15."+t for t in ["C15_panic_contained","C15_bad_input_contained","C15_one_report","C15_fault_cleanup","C15_frame","C15_mux_lock","C15_mux_lock_needs_defer","C15_listener","C15_listener_perm","C15_write_contained","C15_late_write_fails","C15_write_needs_own_writer","C15_pool_exclusive","C15_pool_double_put_counterexample","C15_pool_gen","C15_fault_closes_despite_stuck_writer","C15_close_gen","C15_gen"]],
